@@ -321,7 +321,7 @@ func blockOnListChangeWorker(
 
 	simYield("block.before-register")
 	ws := blockFn()
-	defer ctx.dsc.ds.leaveListBlock(ws)
+	defer func() { ctx.dsc.ds.leaveListBlock(ws) }()
 	simYield("block.after-register")
 
 	// with notification registered, try operation again immediately
@@ -370,7 +370,15 @@ func blockOnListChangeWorker(
 		if output.data != nil {
 			return
 		}
-		// a different client obtained the list element before this client could, so try again
+		// A different client obtained the list element before this client could.
+		// The wake-up has used up this client's place in the wait lists, so it
+		// registers again, and looks once more in case a push came in between.
+		ctx.dsc.ds.leaveListBlock(ws)
+		ws = blockFn()
+		output = op()
+		if output.data != nil {
+			return
+		}
 		simProbe("block.retry-failed")
 		simYield("block.retry-failed")
 	}
